@@ -6,7 +6,7 @@ from typing import List, Optional
 
 from ..model import AnalysisError, ClassInfo, FuncInfo, Program, dotted, own_nodes, unparse
 from ..symex import facts_for, phi_alternatives, is_call_to, PHI
-from .common import result_sites, U, const_value, is_self_attr, returns_of, short, np_call, kwarg
+from .common import ctor_param_attrs, result_sites, U, const_value, is_self_attr, returns_of, short, np_call, kwarg
 from . import c18
 
 PS = "pygradflow.penalty.PenaltyStrategy"
@@ -145,7 +145,9 @@ def run(prog: Program, rep, tier: str) -> None:
                     elif name in ("__init__", "initial"):
                         st = facts_for(m).stmt_of(n)
                         v = facts_for(m).resolved(st.stmt, st.stmt.value) if isinstance(st.stmt, ast.Assign) else None
-                        rep.check(v is not None and U(v) == "self.params.rho", "penalty-initial", m.qualname, short(st.stmt),
+                        # inside the constructor the parameter stored as self.params is self.params
+                        okv = v is not None and (U(v) == "self.params.rho" or (name == "__init__" and U(v) in {f"{p_}.rho" for p_, a_ in ctor_param_attrs(prog, m).items() if a_ == "self.params"}))
+                        rep.check(okv, "penalty-initial", m.qualname, short(st.stmt),
                                   "the policy's rho starts at params.rho", m.loc(n))
     cp = prog.cls("pygradflow.penalty.ConstantPenalty")
     stores = [n for m in cp.methods.values() for n in own_nodes(m.node) if isinstance(n, ast.Attribute) and isinstance(n.ctx, ast.Store)]
